@@ -36,6 +36,26 @@ pub fn decode(tape: &[u32]) -> (StateCase, Vec<Op>) {
             _ => Op::Run,
         })
         .collect();
+    let mut ops: Vec<Op> = ops;
+    // deep call chain (read last: earlier tapes decode as before): N x `JSR #0` in a row, then a RET that returns
+    // to itself and so pops one frame per step - the frame stack goes to depth N and all the way down again
+    if t.chance(1, 6) {
+        let n = 100 + t.pick(220);
+        let at = *t.choose(&[0x4000u16, 0x3000, 0x0400]);
+        for i in 0..n {
+            c.spec.overlay.push((at + i as u16, 0x4800));
+        }
+        c.spec.overlay.push((at + n as u16, 0xC1C0));
+        c.spec.pc = at;
+        if at < 0x3000 {
+            c.spec.psr &= 0x7FFF;
+        }
+        c.spec.kbd_ie = false;
+        for p in c.plan.iter_mut() {
+            *p = None;
+        }
+        ops.insert(0, Op::RunLimit((2 * n + t.pick(40)) as u64));
+    }
     (c, ops)
 }
 
@@ -95,6 +115,9 @@ pub fn oracle(c: &StateCase, ops: &[Op], st: &mut Stats) -> Result<(), String> {
     if c.spec.strict {
         st.class("strict");
     }
+    if c.spec.overlay.iter().filter(|(_, w)| *w == 0x4800).count() >= 100 {
+        st.class(if c.spec.debug_frames { "deep-call-chain:debug-frames" } else { "deep-call-chain" });
+    }
     if c.spec.real_traps {
         st.class("real-traps");
     }
@@ -131,7 +154,7 @@ pub fn describe(tape: &[u32]) -> Value {
 pub fn run(ctx: &Ctx) -> Outcome {
     let mut out = Outcome::new(
         "Seeded machines (whole memory and registers random, some registers left uninitialised, optional loaded .blkw block) overlaid with the C08 state generator, all flag combinations incl. strict and real traps, \
-         PC at every page boundary and xFFFF, keyboard/display/interrupt-source devices, extra internal-register mappings, scheduled interrupts; then 1-8 of step_in/run_with_limit(<=200)/step_over/step_out/run (a harness fuse device stops runaway runs with an external interrupt), \
+         PC at every page boundary and xFFFF, keyboard/display/interrupt-source devices, extra internal-register mappings, scheduled interrupts, and in 1/6 of the cases a chain of 100-320 nested calls that is unwound completely; then 1-8 of step_in/run_with_limit(<=200)/step_over/step_out/run (a harness fuse device stops runaway runs with an external interrupt), \
          prefetch_pc/hit_halt/hit_breakpoint after each; oracle: no unwind anywhere, failures surface as SimErr; non-trivial = >=1 instruction executed and (PC reached the vector tables or the I/O page, or a SimErr was reported); distinct by tape",
     );
     let cfg = TapeCfg::new(ctx, 3000, 150_000, 400);
@@ -152,7 +175,7 @@ pub fn run(ctx: &Ctx) -> Outcome {
             }
         }
     }
-    out.essential = ["executed", "pc-in-vector-tables", "pc-in-io-page", "sim-error-reported", "strict", "real-traps"].iter().map(|s| s.to_string()).collect();
+    out.essential = ["executed", "pc-in-vector-tables", "pc-in-io-page", "sim-error-reported", "strict", "real-traps", "deep-call-chain", "deep-call-chain:debug-frames"].iter().map(|s| s.to_string()).collect();
     out
 }
 
